@@ -159,6 +159,7 @@ type c08Node struct {
 type c08World struct {
 	crashAt int          // 0, or the DEBUG_CHAIN_STOP point (2, 3) at which the next reorg crashes
 	bad     map[int]bool // block ids whose execution fails (bad state root)
+	ref     map[int]bool // block ids refused by IsBlockValid when they are about to be executed
 	keys    []crypto.PrivKey
 	bpids   []string
 	bpIdx   map[string]int
@@ -286,6 +287,12 @@ func (w *c08World) deliver(nd *c08Node, blk *types.Block, o *c08Obs) {
 	nd.cdb.byHash[string(blk.BlockHash())] = blk
 	best := nd.cdb.best
 	if string(blk.GetHeader().GetPrevBlockHash()) == string(best.BlockHash()) {
+		if w.ref[w.id(blk.ID())] {
+			// executeBlock: IsBlockValid refuses the block before the executor is built: no Update
+			delete(nd.cdb.byHash, string(blk.BlockHash()))
+			o.Res = "refused"
+			return
+		}
 		if w.bad[w.id(blk.ID())] {
 			// executeBlock: ex.execute() fails -> cs.Update(bestBlock); the block is cached as errored
 			nd.st.Update(best)
@@ -328,6 +335,13 @@ func (w *c08World) deliver(nd *c08Node, blk *types.Block, o *c08Obs) {
 	o.NeedReorg = 1
 	nd.st.Update(root) // rollback
 	for i := len(newBlocks) - 1; i >= 0; i-- {
+		if w.ref[w.id(newBlocks[i].ID())] {
+			// rollforward: IsBlockValid refuses the block: executeBlock returns before its own
+			// Update(best); only reorg's error path calls cs.Update(old best block) (05cfcb8b)
+			nd.st.Update(best)
+			o.Res = "reorg_refused"
+			return
+		}
 		if w.bad[w.id(newBlocks[i].ID())] {
 			// rollforward: executeBlock fails -> cs.Update(old best block); reorg's error path restores
 			// the state root and the parameters and calls cs.Update(old best block) once more (fix
@@ -427,6 +441,7 @@ func TestVerifC08Engine(t *testing.T) {
 		w.blocks = map[int]*types.Block{0: genesis}
 		w.idOf = map[string]int{genesis.ID(): 0}
 		w.bad = map[int]bool{}
+		w.ref = map[int]bool{}
 		if len(w.bpids) == 0 {
 			// bp ids as the code derives them from a signed block
 			for i, k := range w.keys {
@@ -490,6 +505,8 @@ func TestVerifC08Engine(t *testing.T) {
 				w.idOf[b.ID()] = id
 			case "BAD":
 				w.bad[geti(1)] = true
+			case "REF":
+				w.ref[geti(1)] = true
 			case "K":
 				// deliver; if it triggers a reorganisation, crash at stop point op[3] and recover
 				nd := nodes[geti(1)]
